@@ -25,6 +25,9 @@ def bounds(tier):
             "layouts": "all ordered set partitions x all file numberings of one deviating level"}
 
 
+CASE_TIMEOUT = 1800
+
+
 def _meshes(tier, nd):
     ms = list(scope.named_meshes(nd)) + scope.thin_meshes(nd) + scope.far_index_meshes(nd)
     if tier == "thorough":
@@ -65,6 +68,11 @@ def cases(tier, seed):
                     v[lv] = {"files": [[b] for b in range(nb)], "nums": [1 + 2 * b for b in range(nb)]}
                     variants.append(v)
                     devlevel.append(lv)
+                    # file names of different lengths (Cell_D_99999, Cell_D_100000, ...), the first box in the shortest
+                    v = [None] * nlev
+                    v[lv] = {"files": [[b] for b in range(nb)], "nums": [99999 + b for b in range(nb)]}
+                    variants.append(v)
+                    devlevel.append(lv)
             for vi, lay in enumerate(variants):
                 for nf in bounds(tier)["nfields"]:
                     for payload in ("coded", "hostile"):
@@ -86,11 +94,11 @@ def cases(tier, seed):
                         c = out[-1]
                         c["w"] = (60 if c["full"] else (1 if c["boxes_only"] else 6)) * nlev
     # names that differ by letter case only; a repeated name next to a field literally named like its generated key
-    for fi, flds in enumerate((list(scope.CASE_FIELDS), ["density", "temp", "temp_2", "temp"])):
+    for fi, flds in enumerate((list(scope.CASE_FIELDS), ["density", "temp", "temp_2", "temp"], ["\u03c9_z", "\u0394\u03c1", "Y(H\u2082O)", "temp"])):
         for nd in (2, 3):
             m = scope.named_meshes(nd)[1]
             d = dict(m)
-            d.update(geos[nd][fi])
+            d.update(geos[nd][fi % len(geos[nd])])
             d.update({"fields": flds, "layout": [None, scope.layouts(len(m["levels"][1]), 'idrev')[-1]], "payload": "coded", "time": times[1], "seed": seed})
             out.append({"desc": d, "full": False, "maxlist": 2, "boxes_only": False, "devlevel": None, "w": 12, "names_case": True})
     # level directories named otherwise than Level_k (AMReX's levelPrefix)
@@ -192,6 +200,8 @@ def run_case(case, workdir):
                 pairs = [(f, b) for f in fsels for b in bstar] + [(f, b) for f in fstar for b in bsels]
             if lvcls == "C" and lvtag != nlev:
                 pairs = [p_ for p_ in pairs if p_[0][1] == "A" and p_[1][1] == "A"][:4]      # a key that names no level: the box selector is irrelevant
+            elif lvtag == -nlev and nlev > 1:
+                pairs = pairs[::37]          # level 0 under its negative key: a thin slice of the selector product (level 0 has it in full)
             for (ftag, fcls, fidx), (btag, bcls, bsel) in pairs:
                 cls = S.combine_class(fcls, lvcls, bcls)
                 sub = {"field": ftag, "level": lvtag, "box": btag, "class": cls}
